@@ -71,7 +71,7 @@ T = {
 
 NOTE = ("Trusted base: rustc's resolution / type checking / MIR construction (exported by /verif/ripfacts, a ~600-line dumb exporter), "
         "serde/serde_json derive semantics, std/tokio API contracts as frozen in ripcheck/effects.py; 'all paths' excludes unwinding; dyn / unresolved "
-        "trait calls fan out to every workspace impl; provenance is intra-procedural plus named transparent calls and fails closed (CHECK-ERROR, exit 2) "
+        "trait calls fan out to every workspace impl; provenance is intra-procedural plus named transparent calls, extended by virtual inlining of private same-crate helpers (ripcheck/inline.py), and fails closed (CHECK-ERROR, exit 2) "
         "on idioms outside its tables. Nothing is executed. NOT decided by this check: %s.")
 
 
@@ -80,6 +80,15 @@ def main():
     for i in range(1, 21):
         pid = 'C%02d' % i
         tech, decided, notd = T[pid]
+        # rules added after the plan (seeding rounds, DESIGN §10.6) are named from what the check itself reports
+        try:
+            ev = json.load(open(os.path.join(V, 'evidence', pid + '.json')))
+            ids = sorted((ev.get('coverage') or {}).get('per_rule') or {}, key=lambda x: (len(x), x))
+            extra = [r for r in ids if r not in decided]
+            if extra:
+                decided += '; further necessary conditions added after the seeding rounds, each stated in full in the evidence file (coverage.explanation) and in DESIGN.md §10.6: ' + ', '.join(extra)
+        except Exception:
+            pass
         checks.append({
             'property_id': pid,
             'quick_cmd': './check %s --tier quick' % pid,
